@@ -496,6 +496,8 @@ def arg_meaning(v):
         reg, idx = v.resolve_qubit()
         return ("q", reg.name, int(idx))
     if isinstance(v, Register):
+        if int(num_val(v.size)) > 4096:   # a mutant may size a register by a huge let: do not enumerate its qubits
+            return ("r-huge", v.name, int(num_val(v.size)), v.resolve_qubit(0)[0].name, int(v.resolve_qubit(0)[1]))
         return ("r", tuple((v[i].resolve_qubit()[0].name, int(v[i].resolve_qubit()[1])) for i in range(int(num_val(v.size)))))
     v = num_val(v)
     if isinstance(v, (int, float)):
@@ -781,7 +783,28 @@ def _trunc(l, k=20):
 
 
 class Acc:
+    driver = None    # set by run(): requests are sent to the driver in batches, to bound memory
+
+    def flush(self):
+        if not self.reqs:
+            return
+        answers = call_driver(self.driver, self.reqs)
+        for (op, case, impl), model in zip(self.expect, answers):
+            self.corr[op]["cases"] += 1
+            if model != impl and len(self.corr[op]["disagreements"]) < 20:
+                self.corr[op]["disagreements"].append({"case": case, "model": model, "impl": impl})
+            elif model != impl:
+                self.corr[op].setdefault("more_disagreements", 0)
+                self.corr[op]["more_disagreements"] += 1
+            if op != "gen":
+                self.dist[f"{op}:{'raises' if isinstance(impl, dict) else impl}"] += 1
+            if len(self.samples) < 5 and case.get("kind") in ("mutant", "pass") and not any(
+                    x.get("kind") == case.get("kind") and x.get("mutation") == case.get("mutation") for x in self.samples):
+                self.samples.append(dict(case))
+        self.reqs, self.expect = [], []
+
     def __init__(self):
+        self.samples = []
         self.corr = {op: {"cases": 0, "disagreements": []} for op in ("gen", "pyeq", "val_eq", "stmt_eq")}
         self.oracle = {k: {"cases": 0, "failures": []} for k in ORACLES}
         self.dist = Counter()
@@ -792,6 +815,8 @@ class Acc:
     def ask(self, op, req, case, impl):
         self.reqs.append(dict(req, op=op))
         self.expect.append((op, case, impl))
+        if self.driver is not None and len(self.reqs) >= 1500:
+            self.flush()
 
     def check(self, name, ok, case, detail):
         self.oracle[name]["cases"] += 1
@@ -1005,6 +1030,7 @@ def run(seed: int, n: int, driver: str = DEFAULT_DRIVER, thorough: bool = False)
     _imports()
     GS_SIG = {k: ("nq" if k == "PF" else v) for k, v in SIG.items()}
     acc = Acc()
+    acc.driver = driver
     nprog = max(1, n // 12)
     per_prog = 14 if thorough else 8
     for idx in range(nprog):
@@ -1012,15 +1038,8 @@ def run(seed: int, n: int, driver: str = DEFAULT_DRIVER, thorough: bool = False)
     for idx in range(max(1, n // 10)):
         process_api(acc, seed, idx)
     known_pairs(acc)
-    answers = call_driver(driver, acc.reqs)
-    for (op, case, impl), model in zip(acc.expect, answers):
-        acc.corr[op]["cases"] += 1
-        if model != impl:
-            acc.corr[op]["disagreements"].append({"case": case, "model": model, "impl": impl})
-        if op != "gen":
-            acc.dist[f"{op}:{'raises' if isinstance(impl, dict) else impl}"] += 1
-    samples = [e[1] for e in acc.expect if e[1].get("kind") == "mutant"][:3] + [e[1] for e in acc.expect if e[1].get("kind") == "pass"][:2]
-    samples = [{k: v for k, v in s.items()} for s in samples]
+    acc.flush()
+    samples = acc.samples
     for op in acc.corr:
         acc.corr[op]["disagreements"] = _trunc(acc.corr[op]["disagreements"])
     for k in acc.oracle:
